@@ -34,6 +34,8 @@ type SItem struct {
 	Cs        string
 	Cn        *int
 	Ct        *string
+	Cor       int
+	Band      string
 	Mark      int
 	DeletedAt gorm.DeletedAt
 }
@@ -48,6 +50,8 @@ type S2Item struct {
 	Cs         string
 	Cn         *int
 	Ct         *string
+	Cor        int
+	Band       string
 	Mark       int
 	DeletedAt  gorm.DeletedAt
 	ArchivedAt gorm.DeletedAt `gorm:"column:archived_on"`
@@ -63,6 +67,8 @@ type SCItem struct {
 	Cs        string
 	Cn        *int
 	Ct        *string
+	Cor       int
+	Band      string
 	Mark      int
 	RemovedOn gorm.DeletedAt `gorm:"column:removed_on"`
 }
@@ -81,6 +87,8 @@ type SEItem struct {
 	Cs   string
 	Cn   *int
 	Ct   *string
+	Cor  int
+	Band string
 	Mark int
 	Trail
 }
@@ -95,6 +103,8 @@ type SPItem struct {
 	Cs        string
 	Cn        *int
 	Ct        *string
+	Cor       int
+	Band      string
 	Mark      int
 	DeletedAt gorm.DeletedAt
 	Hist      Trail `gorm:"embedded;embeddedPrefix:hist_"`
